@@ -132,7 +132,8 @@ class DatasetSpec(object):
         else:
             out['spikes.times.npy'] = self._vec(self.alf_times)
             if self.alf_store_samples:
-                out['spikes.samples.npy'] = self._vec(self.spike_samples.astype(self.dtype_times))
+                out['spikes.samples.npy' if not self.notes.get('alf_samples_suffix') else 'spikes.samples.%s.npy' % self.notes['alf_samples_suffix']] = \
+                    self._vec(self.spike_samples.astype(self.dtype_times))
         out[self._name('spike_templates.npy')] = self._vec(self.spike_templates.astype(self.dtype_ids))
         if self.spike_clusters is not None:
             out[self._name('spike_clusters.npy')] = self._vec(self.spike_clusters.astype(self.dtype_ids))
@@ -203,6 +204,8 @@ class DatasetSpec(object):
                     with open(d / fn, 'wb') as f:
                         f.write(b'\x5a' * self.raw_offset)
                         f.write(np.ascontiguousarray(self.raw[i:i + p]).tobytes())
+                        if self.notes.get('raw_stray_byte') and k == len(parts) - 1 and self.raw.dtype.itemsize > 1:
+                            f.write(b'\x7f')            # the file was cut in the middle of a sample
                     if self.notes.get('raw_symlink'):
                         # the raw data lives elsewhere; the dataset folder only links to it
                         import os
